@@ -124,9 +124,17 @@ SoftRedirects(S) ==
 StoredRed(p) == IF p.red # NoRedirect /\ "RedirectTreatedAsTitle" \in Dev
                 THEN NormAdd(p.red, p.ns) ELSE p.red
 
-\* the text that is stored for a page
+\* the text that is stored for a page.  Whether a page is a template is a matter of its
+\* NAMESPACE, never of the text of its title: a page of the talk namespace of the templates
+\* ("Template talk:Zed"), a main-namespace entry called "Template" / "Templates" / "Templatex",
+\* "Appendix:Templates", "Module:Template" keep their text as written.  Hypothetical deviation
+\* used as vacuity guard (Demo_Ingest_names): the pages of the talk namespace (id + 1, its
+\* name extends the subject namespace's name) are reduced like templates
+ReducedOnStoring(p) ==
+  \/ p.ns = TplNs
+  \/ ("TalkReducedLikeSubject" \in Dev /\ p.ns = TplNs + 1)
 StoredBody(p) == IF p.red # NoRedirect THEN NullBody
-                 ELSE IF p.ns = TplNs THEN p.inc ELSE p.body
+                 ELSE IF ReducedOnStoring(p) THEN p.inc ELSE p.body
 
 (* ------------------------------------------------------------------ *)
 (* reference: what the property demands                               *)
@@ -237,6 +245,14 @@ RedirectsVerbatim ==
                \E r \in cur : /\ r.title = dump[k].title /\ r.ns = dump[k].ns
                               /\ r.redirect = dump[k].red
                               /\ Denote(r.redirect) = Denote(dump[k].red)
+\* every selected page that is not a redirect (the last one of its key) is stored with the
+\* text that was written; the includable part only in the template namespace, whatever the
+\* title of the page looks like
+TextsVerbatim ==
+  IDone => \A k \in SelIdx(dump, sel) :
+             (dump[k].red = NoRedirect /\ LastOfKey(dump, sel, k)) =>
+               \E r \in cur : /\ r.title = dump[k].title /\ r.ns = dump[k].ns
+                              /\ r.body = IF dump[k].ns = TplNs THEN dump[k].inc ELSE dump[k].body
 \* the functional fold and the action sequence agree (both ideal and as-is depend on Dev
 \* only through NormAdd; the fold adds the as-is stripping by itself)
 FoldAgrees == IDone => cur = StoreAfter(dump, sel, "MainPrefixStrippedOnAdd" \in Dev)
